@@ -2,7 +2,7 @@
    Everything here is executable Gallina; no proofs. *)
 From Coq Require Import List NArith ZArith String Bool.
 Import ListNotations.
-From UV Require Import Py.Val Py.Str Py.Utf8 Py.Regex Py.UrlLib Gen.Patterns Ural.TrieDict Ural.Utils Ural.HostnameTrieSet Ural.SuffixTrie Ural.Tld Proofs.SuffixTrieFacts.
+From UV Require Import Py.Val Py.Str Py.Utf8 Py.Regex Py.UrlLib Gen.Patterns Ural.TrieDict Ural.Utils Ural.HostnameTrieSet Ural.SuffixTrie Ural.Tld Proofs.SuffixTrieFacts Py.Pct Ural.Quote Spec.C14 Gen.Tables.
 Open Scope string_scope.
 
 Definition opt_wrap (o : option val) : val :=
@@ -235,6 +235,42 @@ Definition do_psl_bundled (arg : val) : val :=
   | _ => vbad
   end.
 
+(* ---------------- ural.quote (C14) ---------------- *)
+Definition do_quote (arg : val) : val :=
+  match arg with
+  | VL [VS op; VS a] =>
+      if str_eqb op (lit "safely_unquote_auth_item") then VS (safely_unquote_auth_item a)
+      else if str_eqb op (lit "safely_unquote_path") then VS (safely_unquote_path a)
+      else if str_eqb op (lit "safely_unquote_query_item") then VS (safely_unquote_query_item a)
+      else if str_eqb op (lit "safely_unquote_fragment") then VS (safely_unquote_fragment a)
+      else if str_eqb op (lit "safely_quote") then VS (safely_quote a)
+      else if str_eqb op (lit "upper_quoted") then VS (upper_quoted a)
+      else if str_eqb op (lit "unquote") then VS (unquote_full false None false a)
+      else if str_eqb op (lit "unquote_printable") then VS (unquote_full true None false a)
+      else if str_eqb op (lit "unquote_space") then VS (unquote_full false (Some [32%N]) true a)
+      else vbad
+  | _ => vbad
+  end.
+
+Definition required_of (which : str) : list N :=
+  if str_eqb which (lit "auth") then R_auth
+  else if str_eqb which (lit "path") then R_path
+  else if str_eqb which (lit "query") then R_query
+  else R_fragment.
+
+(* deciders of Spec/C14.v on observed (input, output) pairs *)
+Definition do_c14spec (arg : val) : val :=
+  match arg with
+  | VL [VS which; VS inp; VS out] =>
+      if str_eqb which (lit "quote") then VL [VB (quote_ok inp out); VB (same_bytes inp out)]
+      else if str_eqb which (lit "upper") then VL [VB (upper_ok inp out); VB (same_bytes inp out)]
+      else
+        let r := required_of which in
+        VL [VB (unquote_ok r inp out); VB (same_bytes inp out); VB (no_raw_space out);
+            VB (no_new_control inp out); VB (delims_kept r inp out)]
+  | _ => vbad
+  end.
+
 (* ---------------- dispatch ---------------- *)
 Definition table : list (str * (val -> val)) :=
   [ (lit "triedict", do_triedict);
@@ -245,7 +281,9 @@ Definition table : list (str * (val -> val)) :=
     (lit "suffixtrie", do_suffixtrie);
     (lit "psl", do_psl);
     (lit "tld", do_tld);
-    (lit "psl_bundled", do_psl_bundled) ].
+    (lit "psl_bundled", do_psl_bundled);
+    (lit "quote", do_quote);
+    (lit "c14spec", do_c14spec) ].
 
 Fixpoint find_fn (name : str) (l : list (str * (val -> val))) : option (val -> val) :=
   match l with
